@@ -245,7 +245,10 @@ class Vol:
                         "stalelow": (max(nfree - 3, 0), 2), "unknowncount": (0xFFFFFFFF, hint),
                         # count truthful, hint names a cluster in use (what a crash between an allocation and the next
                         # information-sector write leaves behind)
-                        "staleused": (nfree, max([c for c in range(2, self.N + 2) if self.fat[c]] or [2]))}[self.info]
+                        "staleused": (nfree, max([c for c in range(2, self.N + 2) if self.fat[c]] or [2])),
+                        # hint = the LAST cluster of the volume, which is marked bad: every free cluster lies below the
+                        # hint (the search must wrap around)
+                        "stalelast": (nfree, self.N + 1)}[self.info]
             i = self.blk(1)
             i[0:4] = le32(0x41615252); i[484:488] = le32(0x61417272); i[488:492] = le32(cnt); i[492:496] = le32(nxt)
             i[508:512] = le32(0xAA550000)
